@@ -68,6 +68,9 @@ let run_ms (a : string list) : string =
     let out = Buffer.create 256 in
     let stopped = ref false in
     let reopened = ref false in
+    (* one reused destination per element size for the vector reads of a case, initially three elements of 0xee bytes *)
+    let dests : (int, n list list) Hashtbl.t = Hashtbl.create 7 in
+    let dest_of sz = try Hashtbl.find dests sz with Not_found -> List.init 3 (fun _ -> List.init sz (fun _ -> n_of_int 238)) in
     List.iter (fun t ->
         if not !stopped then begin
           let kind = String.sub t 0 2 in
@@ -79,6 +82,13 @@ let run_ms (a : string list) : string =
             match parse_op t with
             | None -> "?"
             | Some OReopen when !reopened -> "?"
+            | Some (ORVec szn) ->
+              let sz = int_of_n szn in
+              let ((r, s'), d') = read_vector_into !s szn (dest_of sz) in
+              s := s'; Hashtbl.replace dests sz d';
+              (match r with
+               | RVec _ -> Printf.sprintf "V:%d:%s" (List.length d') (tohex (List.concat d'))   (* what the destination holds now *)
+               | _ -> res_str r)
             | Some o ->
               let (r, s') = run_op !s o in
               s := s';
